@@ -57,6 +57,12 @@ def base_plan(seed=1, **kw):
         'reach': {'bob': {'direct': 'fast', 'delay': 0.02, 'pierce': False}},
         'stop': {'transfer': 0, 'op': 'abort', 'k': 3, 'plus_iter': 0, 'fallback_at': 25.0},
         'status': [], 'chunk_delay': 0.0, 'queue_delay': 0.05, 'slots': 2,
+        # the uploader offers the file on its own connection at this instant (it had it queued from before),
+        # whether or not our own queue request has reached it
+        'spontaneous': None,
+        # upload target only: the downloader resets the file connection after `after` bytes, drops its P links, is from
+        # then on reachable as `then` says, and asks for the file again `requeue_delay` later
+        'ul_break': None,
     }
     plan.update(kw)
     return plan
@@ -87,6 +93,23 @@ def corpus(tier):
                        'carol': {'direct': 'fast', 'delay': 0.02, 'pierce': False}},
                 stop={'transfer': 0, 'op': op, 'k': 99, 'plus_iter': 0, 'fallback_at': t},
                 status=[{'at': 0.5, 'peer': 'carol', 'status': 1}, {'at': 1.5, 'peer': 'carol', 'status': 2}]))
+    # our queue attempt hangs on a black-holed connect while the uploader offers the file over its own connection:
+    # a remote-queue task and an initialisation are in flight together
+    for op in OPS:
+        for k in range(0, 12):
+            out.append(base_plan(
+                reach={'bob': {'direct': 'blackhole', 'delay': None, 'pierce': False}},
+                stop={'transfer': 0, 'op': op, 'k': k, 'plus_iter': 0, 'fallback_at': 25.0},
+                spontaneous=0.5, chunk_delay=0.01))
+    # upload broken mid-file, the failure notice needs a new (slow) connection, the peer asks again meanwhile
+    for op in OPS:
+        for then, then_delay in (('slow', 4.0), ('blackhole', None)):
+            for k in range(4, 16):
+                out.append(base_plan(
+                    transfers=[{'id': 0, 'dir': 'up', 'peer': 'bob', 'size': 200000, 'at': 0.0}],
+                    reach={'bob': {'direct': 'fast', 'delay': 0.02, 'pierce': then == 'blackhole', 'pierce_delay': 20.0}},
+                    stop={'transfer': 0, 'op': op, 'k': k, 'plus_iter': 0, 'fallback_at': 25.0},
+                    ul_break={'after': 4096, 'requeue_delay': 0.3, 'then': then, 'then_delay': then_delay}))
     # duplicated PeerTransferRequest handled back-to-back
     for op in OPS:
         for k in range(2, 9):
@@ -126,6 +149,13 @@ def generate(rng, index, tier):
         slots=rng.choice([1, 2, 2, 3]))
     if rng.random() < 0.15:
         plan['dup_request'] = 1
+    if rng.random() < 0.25:
+        plan['spontaneous'] = rng.choice([0.0, 0.05, 0.5, 3.0, 12.0])
+    target = transfers[plan['stop']['transfer']]
+    if target['dir'] == 'up' and rng.random() < 0.4:
+        then = rng.choice(('slow', 'blackhole', 'refused', None))
+        plan['ul_break'] = {'after': rng.choice([1, 4096, 30000]), 'requeue_delay': rng.choice([0.0, 0.3, 2.0, 12.0]),
+                            'then': then, 'then_delay': rng.uniform(2.0, 8.0) if then == 'slow' else None}
     return plan
 
 
@@ -133,6 +163,10 @@ SHRINK_LISTS = ('transfers', 'status')
 
 
 def simplify(plan):
+    if plan.get('spontaneous') is not None:
+        yield dict(plan, spontaneous=None)
+    if plan.get('ul_break'):
+        yield dict(plan, ul_break=None)
     if plan.get('dup_request'):
         yield dict(plan, dup_request=0)
     if plan['stop'].get('plus_iter'):
@@ -183,10 +217,11 @@ def _run(world: World, plan):
         xpeers[name] = xp
 
     # reachability ----------------------------------------------------------------
+    reach_now = {name: dict(r) for name, r in plan['reach'].items()}
     def connect_hook(attempt):
         if attempt['src'] != 'alice':
             return None
-        r = plan['reach'].get(attempt['dst'])
+        r = reach_now.get(attempt['dst'])
         if r is None:
             return None
         d = r['direct']
@@ -388,6 +423,9 @@ def _run(world: World, plan):
             xp.share(path, pattern_bytes(t['size'], t['id']), **beh)
             c = world.call(alice, f"download-{t['id']}", tm.download, t['peer'], path)
             await c.task
+            if plan.get('spontaneous') is not None and t['id'] == target_spec['id']:
+                world.net.fired['spontaneous_offer'] += 1
+                xp.peer.spawn(xp.offer(path, delay=plan['spontaneous']))
         else:
             item = None
             for it in client.shares.shared_directories[0].items:
@@ -397,8 +435,32 @@ def _run(world: World, plan):
                 return
             path = item.get_remote_path()
             remote_paths[t['id']] = path
-            xp.want(path)
+            brk = plan.get('ul_break') if t['id'] == target_spec['id'] else None
+            if brk:
+                xp.want(path, read_bytes=brk['after'], stop_how='abort')
+                xp.peer.spawn(break_watch(xp, path, brk))
+            else:
+                xp.want(path)
             xp.peer.spawn(xp.request_file(path))
+
+    async def break_watch(xp, path, brk):
+        dl = xp.downloads[path]
+        t_end = loop.time() + 120.0
+        while not any(how == 'peer_abort' for (_, how) in dl.ended):
+            if loop.time() > t_end:
+                return
+            await asyncio.sleep(0.01)
+        world.net.fired['upload_file_conn_reset'] += 1
+        xp.dl_beh[path] = {}
+        for link in list(xp.p_links):
+            if link.is_open():
+                link.close()
+        if brk.get('then'):
+            reach_now[xp.name] = {'direct': brk['then'], 'delay': brk.get('then_delay')}
+        await asyncio.sleep(brk.get('requeue_delay', 0.3))
+        if path not in xp.muted:
+            world.net.fired['peer_requeue_after_break'] += 1
+            await xp.request_file(path)
 
     async def status_feed():
         last = 0.0
@@ -464,7 +526,13 @@ def _run(world: World, plan):
     t0 = results['t0']
     path = target_path()
     peer = target_spec['peer']
-    if accepted or (op == 'remove'):
+    # a queue request of the peer that was on the wire when the call returned re-queues the file legitimately
+    requeue_in_flight = any(
+        isinstance(m, M.PeerTransferQueue.Request) and m.filename == path and t0 - 2.0 < t <= t0
+        for xp in xpeers.values() for (t, m) in xp.sent)
+    if requeue_in_flight:
+        world.probe('peer_requeue_on_the_wire_at_return')
+    if (accepted or (op == 'remove')) and not requeue_in_flight:
         status_in_window = [t for t in results.get('status_times', []) if t >= t0]
         # (1) frames about the file leaving the client inside the window
         bad_kinds = (M.PeerTransferQueue.Request, M.PeerTransferRequest.Request, M.PeerPlaceInQueueRequest.Request,
